@@ -17,6 +17,9 @@ type ctlState struct {
 	autoRestarts                                 int
 	userStopOK                                   bool // a user Stop/StopAndWait/StopAll returned nil and no user Start came after
 	userStopSeq                                  int
+	lastRecoveringAt                             int64            // when the pipeline was last marked recovering (not reset by the restart)
+	callTime                                     map[string]int64 // client -> simulated time its call in flight was issued
+	stopIssuedAt, forceIssuedAt                  int64            // when the acknowledged stop / force stop request returned (it took effect at some instant before)
 	forceStopped                                 bool
 	forceStopSeq                                 int
 	runStartStep                                 []int // scheduler step at which each run (first open after a start) began
@@ -38,11 +41,11 @@ type ctlState struct {
 	everUserStartDuringRecovery                  bool
 	dstNacks, dlqRejects, procErrors, stuckCalls int
 	dstNacksBySrc                                map[string]int // rejections per source (v2 keeps one nack window per source, v1 one per pipeline)
-	restartInProgress                            bool  // an automatic restart has begun and the pipeline is not yet reported running again
-	forceStopIssued                              bool  // a force stop request has been issued at some time in this run
-	forceStopFoundRunOver                        bool  // ... and at that moment the run had already closed all its plugin sessions
-	forceDuringGraceful                          bool  // ... or a graceful stop of that run had already been acknowledged
-	ambiguousUntil                               int64 // sim ms until which the number of restarts left cannot be known
+	restartInProgress                            bool           // an automatic restart has begun and the pipeline is not yet reported running again
+	forceStopIssued                              bool           // a force stop request has been issued at some time in this run
+	forceStopFoundRunOver                        bool           // ... and at that moment the run had already closed all its plugin sessions
+	forceDuringGraceful                          bool           // ... or a graceful stop of that run had already been acknowledged
+	ambiguousUntil                               int64          // sim ms until which the number of restarts left cannot be known
 	// the start in progress (a Start call or an automatic restart) and what its run has done so far
 	startActive       bool
 	openedSinceStart  int
@@ -50,7 +53,7 @@ type ctlState struct {
 }
 
 func newCtlState() *ctlState {
-	return &ctlState{recoveringAt: -1, inFlight: map[string]int{}, callNote: map[string]string{}, statusAtCall: map[string]int{}, runAtCall: map[string]int{}, clientDone: map[string]bool{}, startCallStep: map[string]int{}, lastAction: map[string]bool{}}
+	return &ctlState{recoveringAt: -1, lastRecoveringAt: -1, inFlight: map[string]int{}, callNote: map[string]string{}, statusAtCall: map[string]int{}, runAtCall: map[string]int{}, clientDone: map[string]bool{}, startCallStep: map[string]int{}, lastAction: map[string]bool{}}
 }
 
 var faultStepRe = regexp.MustCompile(`@s(\d+)`)
@@ -96,16 +99,28 @@ func (o *Oracles) onPark(w *World, kind string) {
 	if d < int64(rc.MinDelayMs) || d > int64(rc.MaxDelayMs)+1500 {
 		w.violate("C10", "backoff-out-of-bounds", fmt.Sprintf("automatic restart began %d ms after the pipeline was marked recovering; configured back-off bounds are [%d, %d] ms", d, rc.MinDelayMs, rc.MaxDelayMs))
 	}
+	// a request that returned when the shortest back-off had already elapsed may have met the restart
+	// goroutine between its last look at the stop flags and the publication of the new run
+	// (known finding F5: the engine then stops the run it has just started instead of not
+	// starting it); one that returned earlier found the goroutine waiting and must prevent the restart
+	racing := func(issuedAt int64) string {
+		if c.lastRecoveringAt >= 0 && issuedAt-c.lastRecoveringAt >= int64(rc.MinDelayMs) {
+			return "-racing-the-restart"
+		}
+		return ""
+	}
 	if c.userStopOK {
 		cls, when := "restart-after-stop", ""
 		if c.stopDuringBackoff {
 			cls, when = "restart-after-stop-issued-during-backoff", " (the request was issued while the pipeline was waiting to be restarted)"
 		}
-		w.violate("C10", cls, fmt.Sprintf("pipeline was restarted automatically after a %s request had returned success (event #%d)%s", c.stopKind, c.userStopSeq, when))
+		cls += racing(c.stopIssuedAt)
+		w.violate("C10", cls, fmt.Sprintf("pipeline was restarted automatically after a %s request had returned success (event #%d)%s; request returned %d ms after the pipeline was marked recovering, shortest back-off %d ms", c.stopKind, c.userStopSeq, when, c.stopIssuedAt-c.lastRecoveringAt, rc.MinDelayMs))
 	}
 	if c.forceStopped {
-		w.violate("C12", "restart-after-force-stop", "pipeline was restarted automatically after a force stop")
-		w.violate("C10", "restart-after-force-stop", "pipeline was restarted automatically after a force stop (a force stop is a fatal cause: degraded, never restarted)")
+		sfx := racing(c.forceIssuedAt)
+		w.violate("C12", "restart-after-force-stop"+sfx, fmt.Sprintf("pipeline was restarted automatically after a force stop (returned %d ms after the pipeline was marked recovering, shortest back-off %d ms)", c.forceIssuedAt-c.lastRecoveringAt, rc.MinDelayMs))
+		w.violate("C10", "restart-after-force-stop"+sfx, fmt.Sprintf("pipeline was restarted automatically after a force stop (a force stop is a fatal cause: degraded, never restarted); returned %d ms after the pipeline was marked recovering, shortest back-off %d ms", c.forceIssuedAt-c.lastRecoveringAt, rc.MinDelayMs))
 	}
 }
 
@@ -127,6 +142,7 @@ func (o *Oracles) onControlEvent(w *World, e *Event) {
 		switch e.N {
 		case 5:
 			c.recoveringAt = e.T
+			c.lastRecoveringAt = e.T
 			c.userStartSinceRecovering = len(c.startInFlight()) > 0
 			// attempts model: restarts still counted at this moment
 			rc := w.cfg.Recovery
@@ -163,6 +179,10 @@ func (o *Oracles) onControlEvent(w *World, e *Event) {
 		op := strings.Fields(e.Note + " x")[0]
 		c.inFlight[e.Ent] = e.Seq
 		c.callNote[e.Ent] = e.Note
+		if c.callTime == nil {
+			c.callTime = map[string]int64{}
+		}
+		c.callTime[e.Ent] = e.T
 		st, _, _ := w.db.durableStatus(PipelineID)
 		c.statusAtCall[e.Ent] = st
 		c.runAtCall[e.Ent] = len(c.runStartStep)
@@ -173,7 +193,7 @@ func (o *Oracles) onControlEvent(w *World, e *Event) {
 			c.forceStopFoundRunOver = len(o.openSessions(w)) == 0
 			// a graceful stop had already been acknowledged: the run is ending anyway, and whether
 			// its cleanup sees the force stop or has already settled on "stopped" is a photo finish
-			c.forceDuringGraceful = c.userStopOK
+			c.forceDuringGraceful = c.userStopOK || c.gracefulInFlight()
 		}
 		if op == "start" {
 			c.startActive, c.openedSinceStart, c.terminalAfterOpen = true, 0, false
@@ -211,16 +231,19 @@ func (o *Oracles) onControlEvent(w *World, e *Event) {
 					}
 				}
 				c.userStopOK, c.userStopSeq = true, e.Seq
+				c.stopIssuedAt = e.T
 				c.stopDuringBackoff, c.stopKind, c.stopClient = c.statusAtCall[e.Ent] == 5, "user stop", e.Ent
 			}
 		case "stopall":
 			if e.Kind == "RET" {
 				c.userStopOK, c.userStopSeq, c.shutdown = true, e.Seq, true
+				c.stopIssuedAt = e.T
 				c.stopDuringBackoff, c.stopKind = c.statusAtCall[e.Ent] == 5, "server shutdown (StopAll)"
 			}
 		case "forcestop":
 			if e.OK && e.Kind == "RET" {
 				c.forceStopped, c.forceStopSeq = true, e.Seq
+				c.forceIssuedAt = e.T
 				c.stopClient = e.Ent
 				// the run had finished by itself (a graceful stop completed: every session closed,
 				// stopped status stored) before the request took effect: nothing was left to force
@@ -259,6 +282,18 @@ func (o *Oracles) onControlEvent(w *World, e *Event) {
 func (c *ctlState) someSourceNackedMoreThan(thr int) bool {
 	for _, n := range c.dstNacksBySrc {
 		if n > thr {
+			return true
+		}
+	}
+	return false
+}
+
+// gracefulInFlight: a graceful stop request has been issued and has not returned yet (it may
+// already have taken effect: the run is draining or over).
+func (c *ctlState) gracefulInFlight() bool {
+	for cl := range c.inFlight {
+		n := c.callNote[cl]
+		if strings.HasPrefix(n, "stop ") || strings.HasPrefix(n, "stopwait") || strings.HasPrefix(n, "stopall") || n == "stop" {
 			return true
 		}
 	}
